@@ -92,8 +92,14 @@ func (s stakeTx) Validate(ctx *action.Context, tx action.SignedTx) (bool, error)
 		return false, err
 	}
 
-	_, err = st.ValidatorPubKey.GetHandler()
+	pubKeyHandler, err := st.ValidatorPubKey.GetHandler()
 	if err != nil {
+		return false, action.ErrInvalidPubkey
+	}
+	// the key is handed to Tendermint as the consensus key of the validator: it must be of the
+	// type Tendermint accepts and it must be the key of the validator address, otherwise two
+	// records can carry one key and the block end returns updates Tendermint refuses
+	if st.ValidatorPubKey.KeyType != keys.ED25519 || !pubKeyHandler.Address().Equal(st.ValidatorAddress) {
 		return false, action.ErrInvalidPubkey
 	}
 
